@@ -2,7 +2,7 @@
 (* Stage A: exhaustive inverse-ness at scaled radices and at the real radices *)
 (* for short strings.  One initial state per case; the property is the       *)
 (* invariant.  A toy 1-symbol checksum decides the accept-set clause.        *)
-EXTENDS Base58, FiniteSets
+EXTENDS Base58, FiniteSets, Integers
 CONSTANTS InB, OutB, MaxIn, MaxOut
 VARIABLE c
 
@@ -11,9 +11,13 @@ Strings(alpha, n) == IF n = 0 THEN {<<>>}
                      ELSE LET S == Strings(alpha, n - 1)
                           IN S \cup {Append(s, a) : s \in {t \in S : Len(t) = n - 1}, a \in alpha}
 
-Cases == [k : {"in"}, v : Strings(0..(InB - 1), MaxIn)] \cup [k : {"out"}, v : Strings(0..(OutB - 1), MaxOut)]
-Init == c \in Cases
-Next == UNCHANGED c
+(* one "group" state per first symbol; the cases with that first symbol are its successors, so all workers evaluate them *)
+InStr  == Strings(0..(InB - 1), MaxIn)
+OutStr == Strings(0..(OutB - 1), MaxOut)
+First(s) == IF s = <<>> THEN -1 ELSE s[1]
+Init == c \in [k : {"group"}, v : {<<g>> : g \in (-1)..(IF InB > OutB THEN InB ELSE OutB)}]
+Next == /\ c.k = "group"
+        /\ c' \in [k : {"in"}, v : {s \in InStr : First(s) = c.v[1]}] \cup [k : {"out"}, v : {s \in OutStr : First(s) = c.v[1]}]
 
 DecDigits(s) == EncDigits(s, OutB, InB)
 EncD(x)      == EncDigits(x, InB, OutB)
